@@ -23,6 +23,11 @@ fn value_of(name: &str) -> V {
         "D" => 4,
         "D_out" => 5,
         "q" => 6,
+        "B" => 1,
+        "C" => 2,
+        "BC" => 3,
+        "P" => 4,
+        "PP" => 5,
         "Zjunk" => 9,
         _ => 7,
     })
@@ -150,6 +155,9 @@ fn programs() -> Vec<P> {
         P { name: "header A R, permuted list", header: vec!["A", "R"], body: vec![row(vec![l(1), l(2)]), row(vec![l(2), Entry::X])], sigs: perm() },
         // a bidirectional signal next to a real output that is called like its expected column
         P { name: "bidirectional D next to a real output D_out", header: vec!["A", "D", "D_out", "Q"], body: vec![row(vec![l(1), Entry::Z, Entry::X, l(1)]), row(vec![l(2), l(3), l(5), Entry::X]), row(vec![Entry::Paren(bin(BinOp::Add, name("D_out"), name("D"))), Entry::Z, Entry::X, Entry::X])], sigs: vec![Sig::inp("A", 4, 0), Sig::bidir("D", 4, V::Z), Sig::out("D_out", 4), Sig::out("Q", 4)] },
+        // output names whose concatenations coincide: B C BC = BC B C, P PP = PP P
+        P { name: "outputs B, C and BC", header: vec!["A", "B", "BC"], body: vec![row(vec![l(1), l(1), l(3)]), row(vec![l(2), Entry::X, Entry::X]), row(vec![Entry::Paren(bin(BinOp::Sub, name("BC"), name("C"))), l(1), Entry::Z])], sigs: vec![Sig::inp("A", 4, 0), Sig::out("B", 4), Sig::out("C", 4), Sig::out("BC", 4)] },
+        P { name: "outputs P and PP", header: vec!["A", "P", "PP"], body: vec![row(vec![l(1), l(4), l(5)]), row(vec![l(2), Entry::X, l(5)])], sigs: vec![Sig::inp("A", 4, 0), Sig::out("P", 4), Sig::out("PP", 4)] },
         // two outputs whose names differ only in letter case
         P { name: "outputs Q and q", header: vec!["A", "Q", "q"], body: vec![row(vec![l(1), l(1), l(6)]), row(vec![l(2), Entry::X, Entry::X]), row(vec![Entry::Paren(bin(BinOp::Sub, name("q"), name("Q"))), l(1), Entry::Z])], sigs: vec![Sig::inp("A", 4, 0), Sig::out("Q", 4), Sig::out("q", 4)] },
         // values that come back: 0 1 0 1 0 1 on A (an entry unchanged against the row before the previous one)
@@ -162,8 +170,35 @@ fn programs() -> Vec<P> {
 
 /// All listed ways of departing from the layout `names`
 fn deviations(names: &[String], all_outputs: &[String]) -> Vec<(String, Vec<String>)> {
+    deviations_with_inputs(names, all_outputs, &[])
+}
+
+fn deviations_with_inputs(names: &[String], all_outputs: &[String], inputs: &[String]) -> Vec<(String, Vec<String>)> {
     let mut out: Vec<(String, Vec<String>)> = vec![];
     let n = names.len();
+    // the whole answer rotated by one in either direction
+    if n > 2 {
+        let mut v = names.to_vec();
+        v.rotate_left(1);
+        out.push(("rotate left".into(), v));
+        let mut v = names.to_vec();
+        v.rotate_right(1);
+        out.push(("rotate right".into(), v));
+    }
+    // an entry for a signal the test drives (a driver that reads back all pins), at either end and in the middle
+    for i in inputs {
+        let mut v = names.to_vec();
+        v.push(i.clone());
+        out.push((format!("append the input {i}"), v));
+        let mut v = names.to_vec();
+        v.insert(0, i.clone());
+        out.push((format!("prepend the input {i}"), v));
+        if n > 1 {
+            let mut v = names.to_vec();
+            v.insert(1, i.clone());
+            out.push((format!("insert the input {i} behind the first entry"), v));
+        }
+    }
     for p in 0..n {
         let mut v = names.to_vec();
         v.remove(p);
@@ -219,7 +254,7 @@ fn deviations(names: &[String], all_outputs: &[String]) -> Vec<(String, Vec<Stri
 /// what it observes on a freshly loaded test (nothing may be remembered in the test).
 pub fn reuse_part(deadline: &Deadline) -> Stats {
     let progs = programs();
-    par_range("one loaded test used twice: every ordered pair of (first layout x values x driver variant | static iteration) over the 16 curated programs", progs.len() as u64, deadline, |u, st| {
+    par_range("one loaded test used twice: every ordered pair of (first layout x values x driver variant | static iteration) over the 18 curated programs", progs.len() as u64, deadline, |u, st| {
         let p = &progs[u as usize];
         let prog = Program { header: p.header.iter().map(|s| s.to_string()).collect(), body: p.body.clone() };
         let text = text(&prog);
@@ -252,7 +287,7 @@ pub fn reuse_part(deadline: &Deadline) -> Stats {
 /// programs, against a device that answers differently at every call, without and with one fault.
 pub fn api_use_part(deadline: &Deadline) -> Stats {
     let progs = programs();
-    par_range("iterator advanced with nth(1..3): 16 curated programs x 2 driver variants x {no fault, fault at call 1..6}", progs.len() as u64 * 2 * 7, deadline, |u, st| {
+    par_range("iterator advanced with nth(1..3): 18 curated programs x 2 driver variants x {no fault, fault at call 1..6}", progs.len() as u64 * 2 * 7, deadline, |u, st| {
         let p = &progs[(u / 14) as usize];
         let ov = u % 2 == 0;
         let fault_at = ((u / 2) % 7) as usize;
@@ -312,7 +347,8 @@ pub fn run(tier: Tier, seed: u64) -> i32 {
             let normal = MenuItem::ans(mk(&names));
             let fault = MenuItem { step: Step::Fault(41), deviation: true, label: "fault".into() };
             let mut menu = vec![normal.clone(), fault.clone()];
-            for (what, ns) in deviations(&names, &all_outputs) {
+            let inputs: Vec<String> = p.sigs.iter().filter(|s| s.is_in() && !s.is_out()).map(|s| s.name.clone()).take(1).collect();
+            for (what, ns) in deviations_with_inputs(&names, &all_outputs, &inputs) {
                 menu.push(MenuItem { step: Step::Ans(mk(&ns)), deviation: true, label: what });
             }
             let init_menu = vec![normal.clone(), MenuItem { step: Step::Fault(40), deviation: true, label: "fault".into() }];
@@ -365,7 +401,7 @@ pub fn run(tier: Tier, seed: u64) -> i32 {
         id: "C13",
         tier,
         seed,
-        rule: "explicit-state BFS (stateright): 16 curated programs x every first layout (each subset of the output-capable signals, and the full set reversed) x 2 driver variants; at every call index the environment may answer normally, fail (constructor, output-reading and write-only calls), or depart from the first layout in every listed way (drop each entry, empty answer, append a foreign signal / a copy / an unsupplied output, duplicate over either neighbour, swap neighbours, substitute every other signal at every position); deviation budget 2 per history (3 for three programs in the thorough tier); the caller carries on after the error so that later rows are checked too; distinct_nontrivial = unique states".into(),
+        rule: "explicit-state BFS (stateright): 18 curated programs x every first layout (each subset of the output-capable signals, and the full set reversed) x 2 driver variants; at every call index the environment may answer normally, fail (constructor, output-reading and write-only calls), or depart from the first layout in every listed way (drop each entry, empty answer, append a foreign signal / a copy / an unsupplied output, duplicate over either neighbour, swap neighbours, substitute every other signal at every position); deviation budget 2 per history (3 for three programs in the thorough tier); the caller carries on after the error so that later rows are checked too; distinct_nontrivial = unique states".into(),
         assumptions: vec![
             "rows before the deviation are compared with the reference interpreter's fault-free run; the attribution rule is checked against the driver's own log for every returned row".into(),
             "a layout deviation in the discarded answer of a mid-clock call (driver without write_input override) is not specified by the property and is not injected".into(),
